@@ -36,7 +36,7 @@ var (
 	errNumberRange      = errors.New("数值范围设置错误")
 	optionsCache        = make(map[string]optionsCacheValue)
 	cacheLock           sync.RWMutex
-	structRequiredCache = make(map[reflect.Type]requiredCacheValue)
+	structRequiredCache = make(map[requiredCacheKey]requiredCacheValue)
 	structCacheLock     sync.RWMutex
 )
 
@@ -45,6 +45,12 @@ type (
 		key     string
 		options *fieldOptions
 		err     error
+	}
+
+	// 一个结构体是否“隐含必填”取决于用哪个标签键去读它的成员，缓存键必须带上标签键
+	requiredCacheKey struct {
+		tag string
+		tp  reflect.Type
 	}
 
 	requiredCacheValue struct {
@@ -534,8 +540,9 @@ func setValue(kind reflect.Kind, value reflect.Value, str string) error {
 }
 
 func structValueRequired(tag string, tp reflect.Type) (bool, error) {
+	cacheKey := requiredCacheKey{tag: tag, tp: tp}
 	structCacheLock.RLock()
-	val, ok := structRequiredCache[tp]
+	val, ok := structRequiredCache[cacheKey]
 	structCacheLock.RUnlock()
 	if ok {
 		return val.required, val.err
@@ -543,7 +550,7 @@ func structValueRequired(tag string, tp reflect.Type) (bool, error) {
 
 	required, err := implicitValueRequiredStruct(tag, tp)
 	structCacheLock.Lock()
-	structRequiredCache[tp] = requiredCacheValue{
+	structRequiredCache[cacheKey] = requiredCacheValue{
 		required: required,
 		err:      err,
 	}
